@@ -200,7 +200,7 @@ func cmdCheck(args []string) int {
 	if thorough {
 		timeout = 60
 	}
-	stats := solveAll(obls, work, timeout, runtime.NumCPU(), thorough)
+	stats, _ := solveResults(results, func(o *Obligation) bool { return hasTag(o.Tags, prop) }, work, timeout, runtime.NumCPU(), thorough)
 	agg := aggregate(obls)
 	ledger := loadLedger(filepath.Join(*verif, "ledger.json"))
 	findings := loadFindings(filepath.Join(*verif, "known_findings.txt"))
@@ -300,6 +300,14 @@ func cmdCheck(args []string) int {
 	}
 	for k := range intr {
 		trusted = append(trusted, "built-in model of library function: "+k)
+	}
+	for k, cs := range v.relied {
+		for _, c := range cs {
+			trusted = append(trusted, "data-structure invariant relied upon at entry of "+k+" (guaranteed by the writers' postconditions, not re-proved here): "+c)
+		}
+	}
+	for k := range v.postulated {
+		trusted = append(trusted, "ghost accounting postulated at calls of: "+k)
 	}
 	sort.Strings(trusted)
 	var outside []string
@@ -424,7 +432,7 @@ func cmdLedger(args []string) int {
 	}
 	work := filepath.Join(*verif, ".work", fmt.Sprintf("ledger-%d", os.Getpid()))
 	defer os.RemoveAll(work)
-	solveAll(obls, work, 20, runtime.NumCPU(), false)
+	solveResults(results, nil, work, 20, runtime.NumCPU(), false)
 	l := &Ledger{Note: "obligations discharged on the delivered tree (pinned commit + hook and fix commits); written by `govc ledger`, never at check time", Obligations: map[string]LedgerEntry{}}
 	n := 0
 	for _, a := range aggregate(obls) {
